@@ -18,6 +18,9 @@ from concurrent.futures import ThreadPoolExecutor
 VERIF = os.path.dirname(os.path.dirname(os.path.abspath(__file__)))
 REPO = os.environ.get("VERIF_REPO", "/repo")
 BUILD = os.path.join(VERIF, ".build")
+if os.path.realpath(REPO) != "/repo":
+    # scratch copies of the repository (mutation testing) get their own cache so they never disturb /repo's
+    BUILD = os.path.join(VERIF, ".build", "alt-" + hashlib.sha1(os.path.realpath(REPO).encode()).hexdigest()[:10])
 SHIM_DIR = os.path.join(VERIF, "vf", "shim")
 INC_DIR = os.path.join(VERIF, "vf", "include")
 
